@@ -440,7 +440,7 @@ impl Family for FragmentIds {
 
 pub fn build(quick: bool) -> Check {
     let mut families: Vec<Box<dyn Family>> = Vec::new();
-    for l in 1..=(if quick { 5 } else { 6 }) {
+    for l in 1..=(if quick { 5 } else { 7 }) {
         families.push(Box::new(RawStrings { len: l, as_handshake: false }));
     }
     for l in 1..=(if quick { 4 } else { 5 }) {
@@ -482,12 +482,12 @@ pub fn build(quick: bool) -> Check {
     Check {
         id: "C20",
         level: "model_checking",
-        rule: "client byte strings: all raw strings of length <= 5/6 over a 13-symbol alphabet of command and marker bytes (after handshake+PREPARE, and as the handshake itself); all framed payloads of length <= 2/3 over all 256 byte values; COM_STMT_EXECUTE parameter blocks (4 bitmaps x 3 flags x 256 type codes x unsigned x values of <= 3 bytes over 6 marker bytes, with and without a preceding valid bind; 1/2/9 declared parameters); every prefix of well-formed bind and reuse blocks x NULL bitmaps x pending long data x earlier bind; for 5 valid conversations and 3 handshake forms every single-byte substitution by every value (this includes every sequence id 0..255 and every length-field value on every packet), every truncation, deletion and duplication; two-fragment requests with every pair of fragment ids from a boundary set. Oracle: run_on returns (Ok or Err) without panicking and within 200000 transport operations; flushed output is well-framed. Non-trivial = input differs from a valid conversation.".into(),
+        rule: "client byte strings: all raw strings of length <= 5/7 over a 13-symbol alphabet of command and marker bytes (after handshake+PREPARE, and as the handshake itself); all framed payloads of length <= 2/3 over all 256 byte values; COM_STMT_EXECUTE parameter blocks (4 bitmaps x 3 flags x 256 type codes x unsigned x values of <= 3 bytes over 6 marker bytes, with and without a preceding valid bind; 1/2/9 declared parameters); every prefix of well-formed bind and reuse blocks x NULL bitmaps x pending long data x earlier bind; for 5 valid conversations and 3 handshake forms every single-byte substitution by every value (this includes every sequence id 0..255 and every length-field value on every packet), every truncation, deletion and duplication; two-fragment requests with every pair of fragment ids from a boundary set. Oracle: run_on returns (Ok or Err) without panicking and within 200000 transport operations; flushed output is well-framed. Non-trivial = input differs from a valid conversation.".into(),
         assumptions: vec![
             "random bytes are not used as a deciding step (sampling is outside this family)".into(),
             "the shim iterates all parameters and reads them with into_inner(); the panicking From<Value> conversions are the shim author's calls, not run_on's".into(),
         ],
-        bounds: json!({"raw_len": if quick {5} else {6}, "framed_len": if quick {2} else {3}, "op_budget": 200000}),
+        bounds: json!({"raw_len": if quick {5} else {7}, "framed_len": if quick {2} else {3}, "op_budget": 200000}),
         exhaustive: true,
         caps_hit: vec![],
         families,
